@@ -1,6 +1,7 @@
 package main
 
 import (
+	"fmt"
 	"go/types"
 
 	"golang.org/x/tools/go/ssa"
@@ -59,7 +60,18 @@ func init() {
 				if ok && src == "this is not go" {
 					return TupleVal{SliceVal{n: mkInt(0)}, in.mkErr(concStr("packages contain errors"), nil, "loader")}
 				}
-				return TupleVal{SliceVal{n: mkInt(0)}, IfaceVal{}}
+				// three functions: two attributed to the file itself, one (as after a //line directive) elsewhere
+				rt := s.Common().StaticCallee().Signature.Results().At(0).Type().Underlying().(*types.Slice).Elem()
+				var rs []Val
+				for k, fname := range []StringVal{a[0].(StringVal), a[0].(StringVal), concStr("grammar.y")} {
+					r := zero(rt).(*StructVal)
+					r.f[fieldIndex(rt, "FunctionName")] = concStr(fmt.Sprintf("p.F%d", k))
+					r.f[fieldIndex(rt, "Fingerprint")] = concStr("fp")
+					r.f[fieldIndex(rt, "Filename")] = fname
+					r.f[fieldIndex(rt, "Line")] = mkInt(int64(10 + k))
+					rs = append(rs, r)
+				}
+				return TupleVal{newSlice(rs), IfaceVal{}}
 			},
 		}
 		cfgs := []*HarnessCfg{
